@@ -1,6 +1,7 @@
 package c09
 
 import (
+	"bytes"
 	"context"
 	"fmt"
 	"net"
@@ -33,16 +34,21 @@ type memSession struct {
 	data map[string]interface{}
 }
 
-func newMemSession() *memSession                          { return &memSession{data: map[string]interface{}{}} }
-func (s *memSession) Context() context.Context             { return context.Background() }
-func (s *memSession) ClientConnection() net.Conn           { return nil }
-func (s *memSession) DatabaseConnection() net.Conn         { return nil }
-func (s *memSession) ProtocolState() interface{}           { return nil }
-func (s *memSession) SetProtocolState(interface{})         {}
-func (s *memSession) GetData(k string) (interface{}, bool) { s.mu.Lock(); defer s.mu.Unlock(); v, ok := s.data[k]; return v, ok }
-func (s *memSession) SetData(k string, v interface{})      { s.mu.Lock(); s.data[k] = v; s.mu.Unlock() }
-func (s *memSession) DeleteData(k string)                  { s.mu.Lock(); delete(s.data, k); s.mu.Unlock() }
-func (s *memSession) HasData(k string) bool                { _, ok := s.GetData(k); return ok }
+func newMemSession() *memSession                   { return &memSession{data: map[string]interface{}{}} }
+func (s *memSession) Context() context.Context     { return context.Background() }
+func (s *memSession) ClientConnection() net.Conn   { return nil }
+func (s *memSession) DatabaseConnection() net.Conn { return nil }
+func (s *memSession) ProtocolState() interface{}   { return nil }
+func (s *memSession) SetProtocolState(interface{}) {}
+func (s *memSession) GetData(k string) (interface{}, bool) {
+	s.mu.Lock()
+	defer s.mu.Unlock()
+	v, ok := s.data[k]
+	return v, ok
+}
+func (s *memSession) SetData(k string, v interface{}) { s.mu.Lock(); s.data[k] = v; s.mu.Unlock() }
+func (s *memSession) DeleteData(k string)             { s.mu.Lock(); delete(s.data, k); s.mu.Unlock() }
+func (s *memSession) HasData(k string) bool           { _, ok := s.GetData(k); return ok }
 
 // ---------------------------------------------------------------------------------------------
 // rendering (PostgreSQL): shared with the session layer
@@ -52,6 +58,7 @@ type rendered struct {
 	Params []pgprog.Val
 	PTypes []pgsess.ColType
 	PFmts  []int16
+	Search []bool // the parameter is the value of a comparison on the searchable column
 }
 
 func (c Case) quals() (tq, idq string) {
@@ -70,10 +77,11 @@ func renderPG(c Case) rendered {
 	var r rendered
 	lt := c.Col.Logical()
 	tq, idq := c.quals()
-	param := func(v pgprog.Val, t pgsess.ColType, f int16) string {
+	param := func(v pgprog.Val, t pgsess.ColType, f int16, search bool) string {
 		r.Params = append(r.Params, v)
 		r.PTypes = append(r.PTypes, t)
 		r.PFmts = append(r.PFmts, f)
+		r.Search = append(r.Search, search)
 		return fmt.Sprintf("$%d", len(r.Params))
 	}
 	var cond func(k Cond) string
@@ -85,11 +93,11 @@ func renderPG(c Case) rendered {
 			case "cast":
 				val = pgprog.Literal(k.Val, lt, k.Spell, true)
 			case "ptext":
-				val = param(k.Val, lt, 0)
+				val = param(k.Val, lt, 0, true)
 			case "pbin":
-				val = param(k.Val, lt, 1)
+				val = param(k.Val, lt, 1, true)
 			case "pcast":
-				val = param(k.Val, lt, 0)
+				val = param(k.Val, lt, 0, true)
 				if lt == pgsess.Text {
 					val += "::text"
 				} else {
@@ -122,9 +130,9 @@ func renderPG(c Case) rendered {
 			var val string
 			switch {
 			case k.PForm == "ptext":
-				val = param(pgprog.Val{B: []byte(k.Arg)}, t, 0)
+				val = param(pgprog.Val{B: []byte(k.Arg)}, t, 0, false)
 			case k.PForm == "pbin":
-				val = param(pgprog.Val{B: []byte(k.Arg)}, t, 1)
+				val = param(pgprog.Val{B: []byte(k.Arg)}, t, 1, false)
 			case t == pgsess.Int4:
 				val = k.Arg
 			default:
@@ -291,6 +299,14 @@ func CheckRewritePG(c Case) (vs hx.Vs) {
 			break
 		}
 	}
+	if v := clearInts(c, []byte(outSQL)); v != nil {
+		vs.Add(sig("search-term-in-clear"), "the emitted statement holds the searched integer %s: %.300s", v, outSQL)
+	}
+	for i, p := range params {
+		if r.Search[i] && isInt(r.PTypes[i]) && !p.Null && bytes.Equal(p.Data, pgprog.ParamBytes(r.Params[i], r.PTypes[i], r.PFmts[i])) {
+			vs.Add(sig("search-term-in-clear"), "parameter $%d still holds the searched integer %s", i+1, r.Params[i].B)
+		}
+	}
 	// literal evaluation of what was emitted
 	prep, err := store.Prepare(outSQL, nil)
 	if err != nil {
@@ -319,7 +335,7 @@ func CheckRewritePG(c Case) (vs hx.Vs) {
 
 func TestRewritePG(t *testing.T) {
 	R.Rule("TestRewritePG", "searchable column configuration (envelope x declared type x failure policy x explicit/implicit client, from the combinations the real loader accepts) + 1-12 stored plaintexts (pool with duplicates, prefixes/extensions of one another, empty, long, NULL, quotes/backslashes) written through a write entry point (SearchableEncryptor, write chain, client-side envelope, translator, library) + SELECT id, s FROM t [AS q] [JOIN u ON ..] WHERE cond; cond from {col op value, value op col} x {=, <>, !=} x {literal spellings, cast, $n text, $n binary} combined with AND/OR/NOT and predicates on plain columns (literal or placeholder). The statement goes through HashQuery.OnQuery (+OnBind on the emitted statement); the emitted statement is executed literally by the typed fake database over the stored values. Oracle: multiset of selected ids = model (three-valued logic over plaintexts); no plaintext marker in the emitted statement/parameters. Non-trivial = a searched value is present AND some row is excluded")
-	hx.Checks(100, 1000)
+	hx.Checks(100, 6000)
 	rapid.Check(t, func(rt *rapid.T) {
 		c := genCase(rt, genOpts{})
 		vs := CheckRewritePG(c)
